@@ -73,7 +73,11 @@ pub fn o_result(prop: &str, ops: &[Op], ex: &Exec) -> V {
     match res {
         Err(k) => {
             if k.is_io() {
-                if ex.fired.is_none() {
+                if ex.budget_hit {
+                    // the call used up the device-call budget of the run (a hang, or an extremely long scan): the
+                    // device then refuses every call, which is what the caller saw
+                    push(&mut v, format!("{prop}/device-call-budget-exhausted/{kind}"), format!("{op:?}: more than {} device calls", ex.calls_last));
+                } else if ex.fired.is_none() {
                     push(&mut v, format!("{prop}/result/{kind}/io-error-without-fault"), format!("{op:?} -> {k:?}"));
                 }
             } else if exp.must.contains(k) || exp.may.contains(k) || exp.undocumented {
